@@ -16,7 +16,8 @@ RULE = (
     "concatenation / single line with escapes) x position (module assignment, inside a function, call argument, on a "
     "line longer than the limit, docstring) x max_line_length in {60, 100}; import layouts: every sequence of <= 4 "
     "(quick 3) items over {stdlib import, third-party import, from import, def, class, assignment, comment} x 0-3 blank "
-    "lines between items. stage level: expandtabs(4), rmspace.format_str, fix_too_many_blank_lines, fix_line_lengths, "
+    "lines between items; nested-blank layouts: 9 code shapes with a run of 0-6 blank lines (empty or indented) inside "
+    "indented code. stage level: expandtabs(4), rmspace.format_str, fix_too_many_blank_lines, fix_line_lengths, "
     "fix_import_spacing called directly (sort_imports reorders statements and is not a layout stage): ast.dump(parse(out)) == ast.dump(parse(in)) with docstring "
     "whitespace normalised; minimize_whitespace_line_differences(a, b) over pairs where b is a after one edit from a "
     "menu: result tree == tree of b. pipeline level: inert programs 'w = <literal>; print(repr(w))' through format_code "
@@ -105,6 +106,20 @@ ITEMS = {
 }
 
 
+NESTED_BLANKS = {
+    # blank-line runs INSIDE indented code (added after the seeded change C11-blank-line-regex-eats-indent)
+    "class_attr_then_method": "class C:\n    x = 1\n{B}    def m(self):\n        return self.x\n",
+    "loop_body_last_stmt": "def f(xs):\n    for x in xs:\n        print(x)\n{B}        print(-x)\n    return 0\n",
+    "after_def_line": "def f():\n{B}    return 1\n",
+    "between_methods_nested": "class A:\n    class B:\n        def m(self):\n            return 1\n{B}        def n(self):\n            return 2\n",
+    "if_else_branches": "if c:\n    a = 1\n{B}    b = 2\nelse:\n{B}    a = 3\n",
+    "before_dedent": "def f():\n    x = 1\n{B}y = 2\n",
+    "after_comment": "def f():\n    x = 1\n{B}    # comment\n{B}    return x\n",
+    "in_parenthesised_expr": "value = (\n    1 +\n{B}    2\n)\n",
+    "try_finally": "try:\n    a = 1\n{B}finally:\n{B}    b = 2\n",
+}
+
+
 def stage_fn(name):
     import rmspace
     from pyrefact import fixes
@@ -134,6 +149,8 @@ def units(tier):
     nmax = 3 if tier == "quick" else 4
     for first in items:
         yield {"t": "imports", "first": first, "nmax": nmax}
+    for name in NESTED_BLANKS:
+        yield {"t": "nested_blanks", "name": name}
     for kind in KINDS:
         yield {"t": "minimize", "kind": kind}
     for kind in KINDS:
@@ -228,6 +245,57 @@ def run_imports(first, nmax, only=None):
                     res["samples"].append(desc)
             res["viol"].extend(v)
     return res
+
+
+def run_nested_blanks(name, only=None):
+    res = {"n": 0, "nontrivial": [], "viol": [], "stats": {}, "samples": []}
+    for k in range(0, 7):
+        for ws in ("", "    "):  # truly empty blank lines, or blank lines carrying indentation
+            src = NESTED_BLANKS[name].replace("{B}", (ws + "\n") * k)
+            for stage in ["blank_lines", "rmspace", "line_lengths_100", "line_lengths_60", "import_spacing", "expandtabs"]:
+                desc = {"nested_blanks": name, "k": k, "ws": ws, "stage": stage}
+                if only and desc != only:
+                    continue
+                if stage == "format_code_layout":
+                    v, status = _check_pipeline_layout(src, desc)
+                else:
+                    v, status = check_stage(stage, src, desc, "blank_run_in_code")
+                res["n"] += 1
+                res["stats"][status] = res["stats"].get(status, 0) + 1
+                if status == "changed":
+                    res["nontrivial"].append(key_of(desc))
+                    if not v and not res["samples"]:
+                        res["samples"].append(desc)
+                res["viol"].extend(v)
+    return res
+
+
+def _check_pipeline_layout(src, desc):
+    """format_code on code where (apart from unused-name handling) only layout stages act: the sequence of
+    statement KINDS and nesting must survive (names may be renamed by other rules, so compare tree shape)."""
+    def shape(text):
+        def rec(n):
+            return (type(n).__name__, tuple(rec(c) for c in ast.iter_child_nodes(n) if isinstance(c, ast.stmt)))
+        return rec(ast.parse(text))
+    try:
+        s0 = shape(src)
+    except (SyntaxError, ValueError):
+        return [], "invalid_input"
+    boot.clear_caches()
+    try:
+        out = progs.format_code(src, {"safe": True})
+    except BaseException:  # noqa: BLE001
+        return [], "blocked"
+    if out == src:
+        return [], "unchanged"
+    try:
+        same = shape(out) == s0
+        why = "statement_nesting_changed"
+    except (SyntaxError, ValueError):
+        same, why = False, "invalid_output"
+    if same:
+        return [], "changed"
+    return [violation("format_code(safe)", "%s[blank_run_in_code]" % why, "format_code(safe=True) on %s" % desc, desc)], "changed"
 
 
 def edited(kind, body, edit):
@@ -344,6 +412,8 @@ def run_unit(unit):
         return run_literal(unit["kind"], unit["pos"])
     if t == "imports":
         return run_imports(unit["first"], unit["nmax"])
+    if t == "nested_blanks":
+        return run_nested_blanks(unit["name"])
     if t == "minimize":
         return run_minimize(unit["kind"])
     return run_pipeline(unit["kind"])
@@ -351,6 +421,8 @@ def run_unit(unit):
 
 def replay(desc):
     progs.worker_setup()
+    if "nested_blanks" in desc:
+        return run_nested_blanks(desc["nested_blanks"], only=desc)["viol"]
     if "layout" in desc:
         return run_imports(desc["layout"][0], 4, only=desc)["viol"]
     if "edit" in desc:
